@@ -12,6 +12,11 @@ open Neutrino.Subs
 #print axioms C11_after_close_observed
 #print axioms C11_oracle_holds
 #print axioms C11_source_facts
+#print axioms C11_handler_never_blocks_on_client
+#print axioms C11_stop_completes_during_registration
+#print axioms C11_reply_isolation
+#print axioms C11_unbuffered_reply_counterexample
+#print axioms C11_reply_source_facts
 #print axioms Neutrino.Subs.inv_step
 #print axioms Neutrino.Subs.step_hide_other
 #print axioms Neutrino.Subs.step_hide_own
